@@ -441,11 +441,38 @@ struct Out {
 
 static void join(std::string &ops, const std::string &op) { if (!ops.empty()) ops += ";"; ops += op; }
 
+// wide text with one malformed unit at position `bad` among `len` units (the others valid, of several encoded widths): the
+// insertion throws unicode_error and the stream must still hold exactly what it held (also when the text is long enough for
+// an implementation to convert it piecewise: positions around 64, 128, 256 units)
+static void gen_failed_insertions(Out &out, Rng &rng, bool thorough) {
+    const size_t bads[] = {0, 1, 5, 15, 16, 63, 64, 65, 127, 128, 129, 255, 256, 300};
+    for (int ki = 0; ki < N_TEXT_KINDS; ++ki) {
+        std::string kind = TEXT_KINDS[ki]; int w = width_of_kind(kind);
+        if (w == 8) continue;
+        for (size_t pre : {(size_t)0, (size_t)5, (size_t)250, (size_t)256, (size_t)700}) for (size_t bad : bads) for (size_t tail : {(size_t)0, (size_t)1, (size_t)70}) {
+            if (!thorough && ((pre == 5 || pre == 256) && tail == 1)) continue;
+            std::vector<uint64_t> us;
+            for (size_t i = 0; i < bad + 1 + tail; ++i) {
+                if (i == bad) { us.push_back(w == 16 ? (rng.chance(1, 2) ? 0xD800 : 0xDC00) : (rng.chance(1, 2) ? 0x110000 : 0xFFFFFFFFu)); continue; }
+                switch (rng.below(4)) { case 0: us.push_back(0x41 + rng.below(26)); break; case 1: us.push_back(0xE9); break; case 2: us.push_back(0x20AC); break;
+                                        default: if (w == 16) { us.push_back(0x4E2D); } else us.push_back(0x1F600); break; }
+            }
+            // UTF-16: a low surrogate directly in front of a high one would pair up (tolerated by design): keep the unit after a DC00 plain
+            G g; g.live[0] = true; std::string ops = "D0";
+            if (pre) join(ops, app(rng, g, 0, pre));
+            join(ops, "o0," + kind + ":" + hex_u64s(us, w));
+            join(ops, "s0,1,c"); join(ops, app(rng, g, 0, 1)); join(ops, "s0,1,d");
+            out.hist("shl.fail", ops);
+        }
+    }
+}
+
 static void gen(Emitter &em, const Options &opt) {
     if (ST_DEFAULT_VALIDATION != ST::check_validity) { fprintf(stderr, "harness: built with a non-default ST_DEFAULT_VALIDATION\n"); _exit(2); }
     Rng rng(opt.seed * 104729 + 31);
     bool thorough = opt.tier == "thorough";
     Out out(em, opt);
+    if (opt.prop == "C18") { gen_failed_insertions(out, rng, thorough); return; }      // C18 looks at this family for failed insertions only
 
     // (0) corpus: witnesses of repaired defects run first
     out.hist("corpus", "D0;z0:48656c6c6f;M1,0;a0:21");                         // defect #14: append to a moved-from stream
@@ -522,6 +549,7 @@ static void gen(Emitter &em, const Options &opt) {
         join(ops, app(rng, g, 0, 1));
         out.hist("shl.text", ops);
     }
+    if (!out.fault) gen_failed_insertions(out, rng, thorough);
     for (int which = 0; which < 8; ++which) for (int rep = 0; rep < (thorough ? 400 : 40); ++rep) {
         G g; g.live[0] = true; std::string ops = "D0";
         const size_t pres[] = {0, 250, 255, 256, 300};
@@ -538,7 +566,7 @@ static void gen(Emitter &em, const Options &opt) {
     {
         const size_t from[] = {0, 1, 255, 256, 257, 511, 512, 513, 1024, 1025, 5000};
         for (size_t n : from) for (int te = 0; te < 2; ++te) {
-            const size_t to[] = {0, 1, n > 0 ? n - 1 : 0, n, n + 1, 255, 256, 257, 512, ~(size_t)0};
+            const size_t to[] = {0, 1, n > 0 ? n - 1 : 0, n, n + 1, 255, 256, 257, 512, ~(size_t)0, ~(size_t)0 - 1, (size_t)1 << 63, ((size_t)1 << 63) - 1};
             for (size_t k : to) for (int tail = 0; tail < 3; ++tail) {
                 G g; g.live[0] = true; std::string ops = "D0";
                 if (n) join(ops, app(rng, g, 0, n));
@@ -619,6 +647,14 @@ static void gen(Emitter &em, const Options &opt) {
             std::string last = lo; size_t sc = last.find(';');
             if (sc != std::string::npos) { ops += ";" + last.substr(0, sc); last = last.substr(sc + 1); }
             out.flt("fault", ops, last, k);
+        }
+        // a stream that went to the heap and was then emptied or shrunk (capacity stays): the next growth beyond that capacity fails
+        for (size_t pre : {(size_t)300, (size_t)600, (size_t)1100}) {
+            std::vector<std::string> shrinks = {"t0,0", "u0", "e0," + U(pre), "e0," + U(pre + 7), "t0,1", "t0,255", "t0,256", "e0," + U(pre - 1), "t0,0;a0:21", "u0;D2;M2,0;X2"};
+            for (const std::string &sh : shrinks) for (const char *lo : {"g0,5000,6", "c0,3000,66", "g0,2049,7", "o0,std:" "4142434445464748494a4b4c4d4e4f50"}) for (int k = 1; k <= 2; ++k) {
+                std::string ops = "D0;g0," + U(pre) + ",4;D1;" + sh;
+                out.flt("fault.shrunk", ops, lo, k);
+            }
         }
         // long wide text: the conversion's own buffer is the first allocation, the stream's growth the second
         for (size_t pre : {(size_t)0, (size_t)250, (size_t)600}) for (int k = 1; k <= 3; ++k) for (const char *kind : {"u16std", "wsv", "u32s"}) {
